@@ -209,6 +209,9 @@ func (vc *FnVC) applyContractN(fr *frame, st *state, sp *FuncSpec, key string, n
 		cfr = &frame{fn: fr.fn, names: map[string]*ssa.Alloc{}}
 	}
 	cfr.spec = sp
+	for k, v := range vc.declareLets(cfr, sp, st, vars) {
+		vars[k] = v
+	}
 	tags := vc.safetyTags(fr)
 	for _, cl := range sp.Clauses {
 		if cl.Kind != "requires" {
